@@ -13,6 +13,10 @@ pub enum AuxSel {
     FreshZero,
     Valid,
     Corrupted,
+    /// a fresh all-zero buffer of exactly this many bytes (incl. sizes too small for any layer)
+    FreshSized(u16),
+    /// the aux data written by keygen, cut to this many bytes
+    ValidCut(u16),
 }
 
 #[derive(Clone, Debug, PartialEq, Eq, Serialize, Deserialize)]
@@ -54,6 +58,14 @@ fn make_aux(c: &LedgerCase, seed: &[u8]) -> Option<AuxBuf> {
     match c.aux {
         AuxSel::None => None,
         AuxSel::FreshZero => Some(AuxBuf::new(vec![0u8; 1200])),
+        AuxSel::FreshSized(k) => Some(AuxBuf::new(vec![0u8; k as usize])),
+        AuxSel::ValidCut(k) => {
+            let mut a = AuxBuf::new(vec![0u8; 1200]);
+            let _ = libapi::keygen(c.hash, &c.levels, seed, Some(&mut a));
+            let mut v = a.used().to_vec();
+            v.truncate(k as usize);
+            Some(AuxBuf::new(v))
+        }
         AuxSel::Valid | AuxSel::Corrupted => {
             let mut a = AuxBuf::new(vec![0u8; 1200]);
             let _ = libapi::keygen(c.hash, &c.levels, seed, Some(&mut a));
@@ -249,6 +261,18 @@ pub fn run(ctx: &Ctx) {
                                 continue;
                             }
                             items.push(LedgerCase { hash: *h, levels: s.clone(), state: st.clone(), accept, aux: aux.clone(), entry });
+                        }
+                    }
+                }
+            }
+            // aux buffers of every size class below and around the smallest layouts
+            for st in [KeyState::Live(0), KeyState::Live(total / 2 + 1), KeyState::Live(total - 1)] {
+                for k in [0u16, 1, 2, 3, 4, 5, 19, 20, 36, 37, 51, 52, 75, 76, 99, 100, 101, 130, 164, 165, 300] {
+                    for (ai, aux) in [AuxSel::FreshSized(k), AuxSel::ValidCut(k)].into_iter().enumerate() {
+                        for entry in [Entry::Sign, Entry::TrySignWithAux] {
+                            if (k as usize + ai + si) % 2 == 0 || entry == Entry::Sign {
+                                items.push(LedgerCase { hash: *h, levels: s.clone(), state: st.clone(), accept: true, aux: aux.clone(), entry });
+                            }
                         }
                     }
                 }
